@@ -34,6 +34,9 @@ def make_case(seed, i, profile):
     if profile == "exh":
         return gen.exh_spec(i)
     rng = case_rng(seed, i)
+    if profile == "nested":
+        spec = gen.gen_nested(rng)
+        return spec, dict(gen.gen_params(rng, spec), maxTime=40)
     spec = gen.gen_spec(rng, profile)
     params = gen.gen_params(rng, spec)
     return spec, params
